@@ -120,6 +120,36 @@ theorem slater_circuit_structure (n : Nat) (desc : List (List (Option (Nat × Na
 /-- non-vacuity: the full schedule for `n = 4` is such a description (and is not empty) -/
 example : slaterSchedulePairs 4 = [[(2, 3)], [(1, 2)], [(0, 1), (2, 3)], [(1, 2)], [(2, 3)]] := by decide
 
+/-! ## from the one-particle block to Fock space -/
+
+/-- Lift of the single-particle statements: if an invertible operator `U` conjugates every creation operator
+`a†_p` into `b†_p` (the conjugation identities the oracle checks for `p = 0 … n−1`, the gate theorems above, and
+`ffft_pow2_is_dft` on the one-particle sector), it conjugates every product `a†_{p1} ⋯ a†_{pk}` into
+`b†_{p1} ⋯ b†_{pk}` … (in any monoid of operators) -/
+theorem conjugation_lifts_to_products {A : Type} [Monoid A] (U Uinv : A) (h1 : Uinv * U = 1) (h2 : U * Uinv = 1)
+    (a b : Nat → A) (hconj : ∀ p, U * a p * Uinv = b p) (l : List Nat) :
+    U * (l.map a).prod * Uinv = (l.map b).prod := by
+  induction l with
+  | nil => simp [h2]
+  | cons p l ih =>
+    simp only [List.map_cons, List.prod_cons]
+    calc U * (a p * (l.map a).prod) * Uinv
+        = (U * a p * Uinv) * (U * (l.map a).prod * Uinv) := by
+          simp only [mul_assoc]
+          rw [← mul_assoc Uinv U, h1, one_mul]
+      _ = b p * (l.map b).prod := by rw [hconj, ih]
+
+/-- … and therefore its action on every Fock basis state `a†_{p1} ⋯ a†_{pk}|vac⟩` (a Slater determinant) is
+`b†_{p1} ⋯ b†_{pk} U|vac⟩`: a number-conserving Gaussian unitary is determined by its one-particle block and its
+action on the vacuum (a phase).  This is why the harness may check `U a†_p U⁻¹` for the `n` generators only,
+and how prepared Slater determinants follow from the conjugation identity. -/
+theorem conjugation_determines_fock_action {A : Type} [Monoid A] (U Uinv : A) (h1 : Uinv * U = 1) (h2 : U * Uinv = 1)
+    (a b : Nat → A) (hconj : ∀ p, U * a p * Uinv = b p) (l : List Nat) (vac : A) :
+    U * ((l.map a).prod * vac) = (l.map b).prod * (U * vac) := by
+  rw [← conjugation_lifts_to_products U Uinv h1 h2 a b hconj l]
+  simp only [mul_assoc]
+  rw [← mul_assoc Uinv U, h1, one_mul]
+
 /-! ## ffft: Cooley–Tukey index recursion (partial: exponents, not the unitary) -/
 
 /-- `ffft_spec_partial`.  For EVERY factor list (prime or not, any order) the index recursion of
